@@ -27,10 +27,10 @@ impl C03 {
         C03 {
             tier,
             seed,
-            n_sweep: tier.pick(40, 400),
-            n_gen: scaled(tier.pick(3_000, 150_000), scale),
-            n_comp: scaled(tier.pick(2_000, 100_000), scale),
-            n_shape: scaled(tier.pick(48, 1_600), scale),
+            n_sweep: tier.pick(100, 2_000),
+            n_gen: scaled(tier.pick(30_000, 750_000), scale),
+            n_comp: scaled(tier.pick(20_000, 500_000), scale),
+            n_shape: scaled(tier.pick(160, 3_200), scale),
         }
     }
 
